@@ -27,6 +27,19 @@ def main():
             else:
                 if rc != 1 or not re.search(r'Runtime error at Ln \d+, Col \d+: index', out):
                     fails += 1; print('FAIL label=eval.array_store.index_outside_the_array_is_a_located_runtime_error program=%s detail=%s[] store at index %d must be a located Runtime error: exit %s, printed %r' % (json.dumps(src), ty, idx, rc, out.strip()[-160:]))
+    for ty, lit, val, elems, shown in KINDS:
+        for idx in (-200000000, -1, 0, 1, 2, 3, 200000000):
+            src = ('function main() -> void { %s[] a = %s; int i = 0; i = i + (%d); echo(a[i]); }\n' % (ty, lit, idx))
+            rc, out = run(bloch, src); n += 1
+            got = [l.strip() for l in out.strip().split('\n') if l.strip()]
+            if 0 <= idx < 3:
+                norm = [g.rstrip('0').rstrip('.') if ty == 'float' and '.' in g else g for g in got]
+                w = elems[idx]; w = w.rstrip('0').rstrip('.') if ty == 'float' and '.' in w else w
+                if rc != 0 or norm != [w]:
+                    fails += 1; print('FAIL label=eval.array_load.result_is_the_element program=%s detail=%s[] read at index %d: exit %s, printed %s, expected %s' % (json.dumps(src), ty, idx, rc, got, [elems[idx]]))
+            else:
+                if rc != 1 or not re.search(r'Runtime error at Ln \d+, Col \d+: index', out):
+                    fails += 1; print('FAIL label=eval.array_load.index_outside_the_array_is_a_located_runtime_error program=%s detail=%s[] read at index %d must be a located Runtime error: exit %s, printed %r' % (json.dumps(src), ty, idx, rc, out.strip()[-160:]))
     print(json.dumps(dict(oracle_checks=n, oracle_failures=fails)))
     sys.exit(1 if fails else 0)
 main()
